@@ -3906,4 +3906,22 @@ def mutants(corpus: Corpus):
     add("c07-fold-elif-became-if", "C07.R4", "_scan_plain_spaces", lambda n: isinstance(n, ast.If) and unparse(n.test) == "line_break != '\\n'" and n.orelse, lambda n: ast.get_source_segment(m.src, n).replace("elif not breaks", "if not breaks", 1), "_scan_plain_spaces")
     add("c07-flow-spaces-ignore-tab", "C07.R4", "_scan_flow_scalar_spaces", is_cmp("stream.peek(length) in ' \\t'"), 'stream.peek(length) == " "', "_scan_flow_scalar_spaces|guards")
     add("c07-digit-test-isdigit", "C07.R1", "_scan_block_scalar_indicators", is_cmp("ch in '0123456789'"), "ch.isdigit()", "int(ch)", nth=1)
+    # --- round 12 ---
+    f_ = m.func(nl)
+    rng = find_node(f_, lambda n: isinstance(n, ast.If) and unparse(n.test).startswith("code >") and any(isinstance(x, ast.Raise) for x in n.body))
+    if rng is not None:
+        blk = next(b for b in _blocks(f_.node) if any(x is rng for x in b))
+        nxt = blk[[i for i, x in enumerate(blk) if x is rng][0] + 1]
+        if isinstance(nxt, ast.Expr) and "chr(code)" in unparse(nxt):
+            ind = " " * rng.col_offset
+            text = (
+                f"try:\n{ind}    {unparse(nxt)}\n{ind}except ValueError:\n"
+                f"{ind}    raise TokenizeError('not a valid Unicode code point', stream.get_position(), 'while scanning a double-quoted scalar', start_mark) from None\n"
+            )
+            lines = m.src.splitlines(keepends=True)
+            lines[rng.lineno - 1 : nxt.end_lineno] = [ind + text]
+            out.append(Mutant("c07-chr-range-check-became-except-valueerror", "C07.R1", m.rel, "".join(lines), expect="OverflowError"))
+    else:
+        out.append(("c07-chr-range-check-became-except-valueerror", "range check not found"))
+    add("c07-block-continuation-ignores-end", "C07.R4", "_scan_block_scalar", lambda n: isinstance(n, ast.If) and unparse(n.test) == "stream.column == indent and stream.peek() != _CHARS_END", lambda n: ast.get_source_segment(m.src, n).replace(ast.get_source_segment(m.src, n.test), "stream.column == indent", 1), "_scan_block_scalar|guards")
     return out
